@@ -557,6 +557,11 @@ def execute(scn, root, count_only=False):
     write_world(files, pkgroot)
     env = scn.get('env', {})
     seams.set_environment(env.get('environ', {}), env.get('argv', ['xdsim']))
+    if env.get('no_pygments'):
+        # the optional colouring dependency is not installed in this environment
+        for name in [n for n in sys.modules if n == 'pygments' or n.startswith('pygments.')]:
+            del sys.modules[name]
+        sys.modules['pygments'] = None
     if env.get('pkgroot_on_path') is not None:
         # the user already has the directory of the package on sys.path (PYTHONPATH, an
         # editable install): xdoctest's temporary entry is then a duplicate
@@ -727,6 +732,24 @@ def run_op(op, idx):
         from xdoctest import utils
         mod = utils.import_module_from_path(abspath_of(op['module']), index=op.get('index', -1))
         return {'modname': mod.__name__}
+    if kind == 'redirect':
+        # the caller of xdoctest points sys.stdout somewhere else between two operations
+        ST.term = SimStream('stdout-%d' % idx)
+        sys.stdout = ST.term
+        return {'redirected': True}
+    if kind == 'import_zip':
+        # a module that lives inside a zip archive (in a folder of it or at its top level)
+        import zipfile
+        from xdoctest import utils
+        arch = os.path.join(ST.root, 'arch%d.zip' % idx)
+        inner = op.get('inner', 'folder/zmod.py')
+        body = 'X = 5\n' if not op.get('fail') else 'raise %s("sim: zipped module cannot be imported")\n' % op.get('exc', 'ValueError')
+        with zipfile.ZipFile(arch, 'w') as z:
+            z.writestr(inner, body)
+            z.writestr('folder/zother.py', 'Y = 6\n')
+        term0 = sys.stdout
+        mod = utils.import_module_from_path(arch + op.get('sep', '/') + inner)
+        return {'modname': LOG.norm(str(getattr(mod, '__name__', None)))}
     if kind == 'setenv':
         # the environment REQUIRES is evaluated against changes between two operations
         seams.set_environment(op.get('environ', {}), op.get('argv', ['xdsim']))
